@@ -299,6 +299,8 @@ class Check:
         lines = []
         for k in self.known:
             lines.append("KNOWN-FINDING: property=%s %s" % (self.pid, k))
+        for d in self.drift[:5]:
+            lines.append("MODEL-DRIFT (not a verdict): %s" % d[:300])
         if self.violations:
             os.makedirs(REPLAY, exist_ok=True)
             for i, v in enumerate(self.violations[:20]):
